@@ -77,6 +77,13 @@ func (b BFlag) String() string {
 	return "off"
 }
 
+// HLevel and HRatio are numbers whose String method returns markup.
+type HLevel int
+type HRatio float64
+
+func (l HLevel) String() string { return `R&D <labs> "q" 'x';` + strconv.Itoa(int(l)) }
+func (l HRatio) String() string { return `<i>&half;</i>'` }
+
 // Next is a method of a defined integer type.
 func (l Level) Next(by int) Level { return l + Level(by) }
 
@@ -293,6 +300,10 @@ func Build(v sb.V) interface{} {
 		return time.Duration(int64(v.N))
 	case "named:level":
 		return Level(int(v.N))
+	case "named:hlevel":
+		return HLevel(int(v.N))
+	case "named:hratio":
+		return HRatio(v.N)
 	case "named:ulevel":
 		return ULevel(uint8(v.N))
 	case "named:u64level":
@@ -318,6 +329,14 @@ func Build(v sb.V) interface{} {
 	case "aliastables":
 		// one list whose only element is a table of rows ...
 		return []stick.Value{aliasRows}
+	case "sharedrows":
+		// one row object reached twice in one list
+		row := []stick.Value{1.0, 2.0}
+		return []stick.Value{row, row}
+	case "sharedrows2":
+		// ... and through two different rows that share it
+		row := []stick.Value{1.0, 2.0}
+		return []stick.Value{[]stick.Value{row, 1.0}, []stick.Value{row, 2.0}}
 	case "aliasrows":
 		return aliasRows
 	case "aliashead":
